@@ -253,6 +253,8 @@ def direct(obj, conv, pos, kw):
         r = obj.asynq(*pos, **kw)
     elif conv == "get_async_fn":
         r = get_async_fn(obj)(*pos, **kw)
+    elif conv == "get_async_fn_wrap":
+        r = get_async_fn(obj, wrap_if_none=True)(*pos, **kw)
     else:
         r = get_async_or_sync_fn(obj)(*pos, **kw)
     isf = isinstance(r, FutureBase)
@@ -261,7 +263,7 @@ def direct(obj, conv, pos, kw):
 
 def perform(obj, conv, pos, kw, pure):
     """one call through `conv` from where we stand (top level, or the body of a running task)"""
-    if conv in ("sync", "asynq", "get_async_fn", "get_async_or_sync_fn"):
+    if conv in ("sync", "asynq", "get_async_fn", "get_async_or_sync_fn", "get_async_fn_wrap"):
         return direct(obj, conv, pos, kw)
     if conv == "yield":
         @A()
